@@ -111,6 +111,16 @@ CHECKS["C04"] = (
     "DESIGN.md section 6, C04",
 )
 
+CHECKS["C05"] = (
+    "Hypothesis-generated fitted models and reporting sets; metamorphic relation over alterations of the observed column",
+    "Generated-input search: models of all four families fitted on full-year baselines predict paired reporting sets that differ "
+    "only in observed usage (scaled, permuted, partly/fully NaN, absent, zero, negated, inf, constant); the predicted value of "
+    "every timestamp predicted in both runs must be bit-identical, hourly families must predict every row, and the altered run "
+    "must not raise.",
+    "Trusted: the alteration and comparison code in vf/props/c05.py.",
+    "DESIGN.md section 6, C05",
+)
+
 PENDING_REASON = "check not built yet in this session (work in progress; property-based testing applies and is planned, see DESIGN.md section 6)"
 
 
